@@ -362,6 +362,15 @@ def rule_ariform(ctx):
         raw = [y for y in z.a[1:] if np_int_sum(y)]
         good_x = not raw  # (one NumPy factor is enough: int64 * python int is int64)
         if not good_x:
+            # `for n in X.tolist()` iterates Python integers, but a term does not keep the .tolist() of an iterated
+            # array (iterating X and X.tolist() visit the same elements): look at the source of the pair sums
+            import ast as _ast0
+
+            srcs0 = [f.node] + [ctx.program.func(q).node for q in getattr(s, "inlined", ()) if ctx.program.has_func(q)]
+            sums = [n_ for src in srcs0 for n_ in _ast0.walk(src) if isinstance(n_, _ast0.Call) and isinstance(n_.func, _ast0.Name) and n_.func.id == "sum" and n_.args and isinstance(n_.args[0], (_ast0.GeneratorExp, _ast0.ListComp)) and any(isinstance(b_, _ast0.BinOp) for b_ in _ast0.walk(n_.args[0].elt))]
+            if sums and all(all(isinstance(g_.iter, _ast0.Call) and isinstance(g_.iter.func, _ast0.Attribute) and g_.iter.func.attr == "tolist" for g_ in n_.args[0].generators) for n_ in sums) and not any(call_name(y) == "np.sum" for y in raw if y.op == "call"):
+                good_x = True
+        if not good_x:
             # float(..) leaves no trace in a term (it is a numeric no-op there): look at the source before judging
             import ast as _ast
 
